@@ -213,9 +213,17 @@ def dfa_to_gnfa(D: DFA) -> GNFA:
     q0 = D.q0
     F = D.F
 
-    # TODO: use an identifier generator to avoid name clashes
-    q_start = State('start')
-    q_accept = State('accept')
+    def fresh_state(hint: str) -> State:
+        # avoid name clashes with the states of D
+        q = State(hint)
+        index = 0
+        while q in Q:
+            index = index + 1
+            q = State('{}{}'.format(hint, index))
+        return q
+
+    q_start = fresh_state('start')
+    q_accept = fresh_state('accept')
     assert q_start not in Q
     assert q_accept not in Q
 
